@@ -301,6 +301,7 @@ def monitors(sc, obs):
     tnode = {t.id: t.node for t in R.tickets}
     started, exited, observed, inflight, running = [], set(), set(), set(), set()
     failure_seen = False
+    unknown_inflight = set()   # tickets drawn whose node never reported entry (run failed first)
     prev_wait = None   # (kind, nonempty) of the immediately preceding scheduler event if it was a wait
 
     def preds_in(n):
@@ -334,13 +335,13 @@ def monitors(sc, obs):
                 bad("C14", "dependent-of-failed-started", node=n, dep=p)
         if failure_seen:
             bad("C14", "start-after-observed-failure", node=n)
-        if pooled and len(inflight) >= maxc:
+        if pooled and len(inflight) + len(unknown_inflight) >= maxc:
             bad("C04", "over-max-concurrency", node=n, inflight=sorted(inflight), maxc=maxc)
         if any(specs[m]["seq"] for m in inflight):
             bad("C05", "started-while-sequential-in-flight", node=n, inflight=sorted(inflight))
         if specs[n]["seq"] and inflight:
             bad("C05", "sequential-started-with-others-in-flight", node=n, inflight=sorted(inflight))
-        ready = [m for m in sorted(selected) if m != n and certainly_ready(m)]
+        ready = [] if unknown_inflight else [m for m in sorted(selected) if m != n and certainly_ready(m)]
         if ready:
             facts["multi_candidate_starts"] += 1
             if specs[n]["seq"] or any(specs[m]["seq"] for m in ready):
@@ -357,6 +358,9 @@ def monitors(sc, obs):
             if n is None:
                 if outcome[0] == "ok":
                     bad("C03", "dispatched-never-entered", ticket=e[2])
+                if len(inflight) + len(unknown_inflight) >= maxc:
+                    bad("C04", "over-max-concurrency", node=None, inflight=sorted(inflight), maxc=maxc)
+                unknown_inflight.add(e[2])
                 prev_wait = None
                 continue
             on_start(n, True)
@@ -401,11 +405,12 @@ def monitors(sc, obs):
                 continue
             facts["waits"] += 1
             facts["sites"].add((kind, mode))
-            ready = [m for m in sorted(selected) if certainly_ready(m)]
+            ready = [] if unknown_inflight else [m for m in sorted(selected) if certainly_ready(m)]
             poss = [m for m in sorted(selected) if possibly_ready(m)]
             if ready:
                 facts["waits_with_ready"] += 1
-            ok = (len(inflight) >= maxc or not ready or any(specs[m]["seq"] for m in inflight))
+            ok = (len(inflight) + len(unknown_inflight) >= maxc or not ready
+                  or any(specs[m]["seq"] for m in inflight))
             if not ok:
                 # "a sequential node is the best ready candidate": judged with the documented
                 # priorities and with the table the scheduler actually holds (a wrong table is
@@ -420,11 +425,10 @@ def monitors(sc, obs):
                 if kind == "conc" and prev_wait == "async":
                     sig = "mixed-kinds-second-wait"
                 bad("C08", sig, kind=kind, mode=mode, inflight=sorted(inflight), ready=ready, maxc=maxc)
-            if kind == "async" and any(specs[m]["res"] == "t" for m in inflight) is False and False:
-                pass
             for t in released:
                 n = tnode[t]
                 if n is None:
+                    unknown_inflight.discard(t)
                     continue
                 inflight.discard(n)
                 if specs[n]["fail"]:
